@@ -32,7 +32,40 @@ type c08win struct {
 	slot  *types.Var            // the []CallResult field (count-based ring), if any
 	bkt   map[*types.Var]bool   // counters of the bucket struct (time-based), if any
 	resT  types.Type
-	class map[string]string // all constants of type CallResult: name -> value
+	class map[string]string   // all constants of type CallResult: name -> value
+	own   map[*types.Var]bool // uint32 fields of the window struct and of its struct-typed fields (a `sum counters` sub-struct)
+	subT  []types.Type        // the struct types of those fields
+}
+
+// ownCounters collects the counter candidates: uint32 fields of the window struct itself and
+// of its (embedded or named) struct-typed fields.
+func (w *c08win) ownCounters() {
+	w.own = map[*types.Var]bool{}
+	st := w.t.Underlying().(*types.Struct)
+	for i := 0; i < st.NumFields(); i++ {
+		ft := st.Field(i).Type()
+		if b, ok := ft.Underlying().(*types.Basic); ok && b.Kind() == types.Uint32 {
+			w.own[st.Field(i)] = true
+		}
+		if p, ok := ft.(*types.Pointer); ok {
+			ft = p.Elem()
+		}
+		if _, isNamed := ft.(*types.Named); !isNamed {
+			continue
+		}
+		if sub, ok := ft.Underlying().(*types.Struct); ok && ft.String() != "time.Time" {
+			n := 0
+			for j := 0; j < sub.NumFields(); j++ {
+				if b, ok := sub.Field(j).Type().Underlying().(*types.Basic); ok && b.Kind() == types.Uint32 {
+					w.own[sub.Field(j)] = true
+					n++
+				}
+			}
+			if n > 0 {
+				w.subT = append(w.subT, ft)
+			}
+		}
+	}
 }
 
 func c08Window(v *c08env) {
@@ -82,30 +115,27 @@ func (w *c08win) method(name string) *flow.Func {
 	return flow.NewFunc(w.v.pkg, fd)
 }
 
-// fieldsIn lists the uint32 fields of the window struct selected in n.
-func (w *c08win) fieldsIn(f *flow.Func, n ast.Node) []*types.Var {
-	st := w.t.Underlying().(*types.Struct)
-	own := map[*types.Var]bool{}
-	for i := 0; i < st.NumFields(); i++ {
-		if b, ok := st.Field(i).Type().Underlying().(*types.Basic); ok && b.Kind() == types.Uint32 {
-			own[st.Field(i)] = true
-		}
-	}
+// fieldsIn lists the counters selected in f and in the same-package helpers it calls
+// (Total() { return w.sum.total }, FailureRate() { return w.sum.failureRate() }).
+func (w *c08win) fieldsIn(f *flow.Func, _ ast.Node) []*types.Var {
 	var out []*types.Var
 	seen := map[*types.Var]bool{}
-	ast.Inspect(n, func(x ast.Node) bool {
-		if e, ok := x.(ast.Expr); ok {
-			if fv, _ := c08sel(f, e); fv != nil && own[fv] && !seen[fv] {
-				seen[fv] = true
-				out = append(out, fv)
+	for _, g := range reach(f, 2) {
+		ast.Inspect(g.Body, func(x ast.Node) bool {
+			if e, ok := x.(ast.Expr); ok {
+				if fv, _ := c08sel(f, e); fv != nil && w.own[fv] && !seen[fv] {
+					seen[fv] = true
+					out = append(out, fv)
+				}
 			}
-		}
-		return true
-	})
+			return true
+		})
+	}
 	return out
 }
 
 func (w *c08win) resolve() string {
+	w.ownCounters()
 	tot, fr, sr := w.method("Total"), w.method("FailureRate"), w.method("SlowRate")
 	if tot == nil || fr == nil || sr == nil {
 		return "Total / FailureRate / SlowRate of " + w.name + " not found"
@@ -157,58 +187,64 @@ func (w *c08win) resolve() string {
 // c08counterWrite classifies node n as a write to a counter: op is "inc" (+1), "dec" (-1),
 // "sub" (-= expr, rhs returned), "other".
 func c08counterWrite(f *flow.Func, n ast.Node, isCounter func(*types.Var) bool) (fv *types.Var, op string, rhs ast.Expr) {
+	fv, op, rhs, _ = c08counterWriteB(f, n, isCounter)
+	return
+}
+
+// c08counterWriteB additionally returns the expression the counter is selected from.
+func c08counterWriteB(f *flow.Func, n ast.Node, isCounter func(*types.Var) bool) (fv *types.Var, op string, rhs ast.Expr, base ast.Expr) {
 	isOne := func(e ast.Expr) bool {
 		cv := c08constOf(f, e)
 		return cv != nil && cv.ExactString() == "1"
 	}
 	switch s := n.(type) {
 	case *ast.IncDecStmt:
-		if got, _ := c08sel(f, s.X); got != nil && isCounter(got) {
+		if got, bs := c08sel(f, s.X); got != nil && isCounter(got) {
 			if s.Tok == token.INC {
-				return got, "inc", nil
+				return got, "inc", nil, bs
 			}
-			return got, "dec", nil
+			return got, "dec", nil, bs
 		}
 	case *ast.AssignStmt:
 		for i, l := range s.Lhs {
-			got, _ := c08sel(f, l)
+			got, bs := c08sel(f, l)
 			if got == nil || !isCounter(got) {
 				continue
 			}
 			if len(s.Lhs) != len(s.Rhs) {
-				return got, "other", nil
+				return got, "other", nil, bs
 			}
 			r := ast.Unparen(s.Rhs[i])
 			switch s.Tok {
 			case token.ADD_ASSIGN:
 				if isOne(r) {
-					return got, "inc", nil
+					return got, "inc", nil, bs
 				}
-				return got, "other", r
+				return got, "other", r, bs
 			case token.SUB_ASSIGN:
 				if isOne(r) {
-					return got, "dec", nil
+					return got, "dec", nil, bs
 				}
-				return got, "sub", r
+				return got, "sub", r, bs
 			case token.ASSIGN:
 				if be, ok := r.(*ast.BinaryExpr); ok {
 					lx, _ := c08sel(f, be.X)
 					switch {
 					case be.Op == token.ADD && lx == got && isOne(be.Y):
-						return got, "inc", nil
+						return got, "inc", nil, bs
 					case be.Op == token.SUB && lx == got && isOne(be.Y):
-						return got, "dec", nil
+						return got, "dec", nil, bs
 					case be.Op == token.SUB && lx == got:
-						return got, "sub", ast.Unparen(be.Y)
+						return got, "sub", ast.Unparen(be.Y), bs
 					}
 				}
-				return got, "other", r
+				return got, "other", r, bs
 			default:
-				return got, "other", r
+				return got, "other", r, bs
 			}
 		}
 	}
-	return nil, "", nil
+	return nil, "", nil, nil
 }
 
 func (w *c08win) check() {
@@ -230,11 +266,8 @@ func (w *c08win) check() {
 	// renderings of the pushed result and of the evicted element
 	var pushedR, evictedR []string
 	pushedObj := map[types.Object]bool{}
-	for _, g := range bodies {
-		if g.Type == nil || g.Type.Params == nil {
-			continue
-		}
-		for _, fl := range g.Type.Params.List {
+	if f.Type != nil && f.Type.Params != nil {
+		for _, fl := range f.Type.Params.List {
 			for _, n := range fl.Names {
 				if o := f.Info.Defs[n]; o != nil && types.Identical(o.Type(), w.resT) {
 					pushedR = append(pushedR, f.Render(n))
@@ -271,9 +304,113 @@ func (w *c08win) check() {
 			return true
 		})
 	}
+	// a CallResult parameter of a helper plays the role of what is handed to it: add(result) gets
+	// the pushed result, remove(slot[i]) the evicted one
+	evictedObj := map[types.Object]bool{}
+	isEvictedExpr := func(e ast.Expr) bool {
+		e = ast.Unparen(e)
+		if isSlotElem(e) {
+			return true
+		}
+		if id, ok := e.(*ast.Ident); ok {
+			o := c08obj(f, id)
+			if evictedObj[o] {
+				return true
+			}
+			if ds := defs[o]; len(ds) == 1 && ds[0] != nil && isSlotElem(ds[0]) {
+				return true
+			}
+		}
+		return false
+	}
+	for round := 0; round < 2; round++ {
+		for _, g := range bodies {
+			for _, call := range calls(g.Body, true) {
+				fo, ok := f.Callee(call).(*types.Func)
+				if !ok {
+					continue
+				}
+				gd := declOf(w.v.pkg, fo)
+				if gd == nil || gd.Type.Params == nil {
+					continue
+				}
+				j := 0
+				for _, fl := range gd.Type.Params.List {
+					for _, n := range fl.Names {
+						o := f.Info.Defs[n]
+						if j < len(call.Args) && o != nil && types.Identical(o.Type(), w.resT) {
+							arg := ast.Unparen(call.Args[j])
+							if id, ok := arg.(*ast.Ident); ok && pushedObj[c08obj(f, id)] && !pushedObj[o] {
+								pushedObj[o] = true
+								pushedR = append(pushedR, f.Render(n))
+							}
+							if isEvictedExpr(arg) && !evictedObj[o] {
+								evictedObj[o] = true
+								evictedR = append(evictedR, f.Render(n))
+							}
+						}
+						j++
+					}
+				}
+			}
+		}
+	}
 	if len(pushedR) == 0 {
 		c.Undecide("R-C08-8", cons+"|counter pairing", at, "Push has no parameter of type CallResult")
 		return
+	}
+	// which counters a write touches: the window's own sum ("win") or a per-bucket record ("bkt")
+	// — told by the expression the counter is selected from (the same struct type may serve both)
+	isSubT := func(t types.Type) bool {
+		if p, ok := t.(*types.Pointer); ok {
+			t = p.Elem()
+		}
+		for _, x := range w.subT {
+			if types.Identical(t, x) {
+				return true
+			}
+		}
+		return false
+	}
+	var kindOf func(st *flow.State, base ast.Expr, depth int) string
+	kindOf = func(st *flow.State, base ast.Expr, depth int) string {
+		base = ast.Unparen(base)
+		if u, ok := base.(*ast.UnaryExpr); ok && u.Op == token.AND {
+			base = ast.Unparen(u.X)
+		}
+		if sx, ok := base.(*ast.StarExpr); ok {
+			base = ast.Unparen(sx.X)
+		}
+		t := f.Info.TypeOf(base)
+		if p, ok := t.(*types.Pointer); ok {
+			t = p.Elem()
+		}
+		if t != nil && types.Identical(t, w.t) {
+			return "win"
+		}
+		switch x := base.(type) {
+		case *ast.SelectorExpr:
+			if fv, b2 := c08sel(f, x); fv != nil && isSubT(fv.Type()) {
+				return kindOf(st, b2, depth+1)
+			}
+		case *ast.IndexExpr:
+			if fv, _ := c08sel(f, x.X); fv != nil {
+				if _, isSlice := fv.Type().Underlying().(*types.Slice); isSlice {
+					return "bkt"
+				}
+			}
+		case *ast.Ident:
+			r := f.Render(x)
+			for _, k := range []string{"win", "bkt"} {
+				if st.Is("ev:ctx:"+r+":"+k, flow.True) {
+					return k
+				}
+			}
+			if ds := defs[c08obj(f, x)]; depth < 3 && len(ds) == 1 && ds[0] != nil {
+				return kindOf(st, ds[0], depth+1)
+			}
+		}
+		return ""
 	}
 	// classVals: what the state knows about a CallResult expression (domain = the declared constants)
 	classVals := func(st *flow.State, renders []string) map[string]flow.Val {
@@ -312,12 +449,34 @@ func (w *c08win) check() {
 	classOfRole := map[string]string{"failure": "CallResultFailure", "slow": "CallResultSlow"}
 	isCounter := func(fv *types.Var) bool { return w.role[fv] != "" || w.bkt[fv] }
 	vd := c08newVerdicts("inc", "dec", "complete", "bucket")
+	var unknownBase ast.Node
 	bktRole := map[*types.Var]map[string]bool{}
 	overwrites := 0
 	res := analyze(c, f, flow.Config{
-		NoHavoc:  true,
-		Inline:   inlineSamePkg(f),
-		OnInline: c08constParams(f),
+		NoHavoc: true,
+		Inline:  inlineSamePkg(f),
+		OnInline: func(st *flow.State, ev *flow.InlineEvent) {
+			c08constParams(f)(st, ev)
+			if !ev.Enter {
+				return
+			}
+			for i, p := range ev.Params {
+				if p == nil || i >= len(ev.Args) {
+					continue
+				}
+				o := f.Info.Defs[p]
+				if o == nil || !isSubT(o.Type()) {
+					continue
+				}
+				k := kindOf(st, ev.Args[i], 0)
+				r := f.Render(p)
+				st.Set("ev:ctx:"+r+":win", flow.Unknown)
+				st.Set("ev:ctx:"+r+":bkt", flow.Unknown)
+				if k != "" {
+					st.Set("ev:ctx:"+r+":"+k, flow.True)
+				}
+			}
+		},
 		OnNode: func(st *flow.State, n ast.Node) {
 			// the slot is overwritten: everything owed to the evicted element must have happened
 			if as, ok := n.(*ast.AssignStmt); ok && len(as.Lhs) == len(as.Rhs) {
@@ -345,15 +504,26 @@ func (w *c08win) check() {
 					}
 				}
 			}
-			fv, op, _ := c08counterWrite(f, n, isCounter)
+			fv, op, _, base := c08counterWriteB(f, n, isCounter)
 			if fv == nil {
 				return
 			}
 			pv := classVals(st, pushedR)
-			if w.bkt[fv] {
+			kind := kindOf(st, base, 0)
+			if kind == "" {
+				if w.bkt[fv] && w.role[fv] == "" {
+					kind = "bkt"
+				} else if !w.bkt[fv] {
+					kind = "win"
+				} else {
+					unknownBase = n
+					return
+				}
+			}
+			if kind == "bkt" {
 				// a per-bucket counter: its class is the guard under which Push increments it
 				if op == "inc" {
-					cl := "total"
+					cl := "other"
 					for role, k := range classOfRole {
 						if pv[k] == flow.True {
 							cl = role
@@ -398,6 +568,10 @@ func (w *c08win) check() {
 		return
 	}
 	c08dump("window:"+w.name, f, res)
+	if unknownBase != nil {
+		c.Undecide("R-C08-8", cons+"|counter pairing", pos(c, unknownBase), "a counter is written through an expression that cannot be told to be the window's sum or a bucket")
+		return
+	}
 	// exits: everything owed to the pushed result has happened
 	nExit := 0
 	for _, ex := range res.Exits {
@@ -423,11 +597,8 @@ func (w *c08win) check() {
 			vd.fail("inc", sprintf("Push returns with the total incremented %d time(s) instead of once", n), st)
 		}
 		// bucket counters move together with the window counters of their class
-		for fv, roles := range bktRole {
-			if len(roles) != 1 {
-				continue
-			}
-			for role := range roles {
+		for fv, seen := range bktRole {
+			for _, role := range []string{c08bucketRole(seen)} {
 				if c08count(st, "binc:"+fv.Name()) != c08count(st, "inc:"+role) {
 					vd.fail("bucket", sprintf("the bucket counter %s (class %s) is not incremented together with the window's %s counter: eviction will later subtract a different amount than was added", fv.Name(), role, role), st)
 				}
@@ -457,23 +628,18 @@ func (w *c08win) check() {
 		roleOfB := map[*types.Var]string{}
 		var amb []string
 		used := map[string]bool{}
-		for fv, roles := range bktRole {
-			if len(roles) != 1 {
+		for fv, seen := range bktRole {
+			r := c08bucketRole(seen)
+			roleOfB[fv] = r
+			if used[r] {
 				amb = append(amb, fv.Name())
-				continue
 			}
-			for r := range roles {
-				roleOfB[fv] = r
-				if used[r] {
-					amb = append(amb, fv.Name())
-				}
-				used[r] = true
-			}
+			used[r] = true
 		}
 		sort.Strings(amb)
 		switch {
 		case len(amb) > 0:
-			c.Violate("R-C08-8", cons+"|bucket counters follow the window counters", at, "bucket counter(s) "+strings.Join(amb, ", ")+" are incremented under the guards of more than one result class (or two share a class): the per-second buckets no longer add up to the window counters")
+			c.Violate("R-C08-8", cons+"|bucket counters follow the window counters", at, "bucket counter(s) "+strings.Join(amb, ", ")+" are incremented for the same result class as another bucket counter: the per-second buckets no longer add up to the window counters")
 		case len(roleOfB) < 3:
 			c.Violate("R-C08-8", cons+"|bucket counters follow the window counters", at, sprintf("only %d of the bucket's counters are incremented by Push: eviction cannot subtract what was added", len(roleOfB)))
 		default:
@@ -501,7 +667,11 @@ func (w *c08win) checkEvict(roleOfB map[*types.Var]string) {
 			if p, ok := t.(*types.Pointer); ok {
 				t = p.Elem()
 			}
-			if !types.Identical(t, w.t) {
+			mine := types.Identical(t, w.t)
+			for _, x := range w.subT {
+				mine = mine || types.Identical(t, x)
+			}
+			if !mine {
 				continue
 			}
 			ast.Inspect(fd.Body, func(n ast.Node) bool {
@@ -550,4 +720,17 @@ func (w *c08win) checkEvict(roleOfB map[*types.Var]string) {
 		return
 	}
 	c.Check(bad == "", "R-C08-8", cons, pos(c, badAt), sprintf("%d subtraction sites pair total/failure/slow with the bucket's total/failure/slow", subs), bad)
+}
+
+// c08bucketRole: a bucket counter incremented only for pushed Slow results is the slow counter,
+// only for Failure the failure counter, otherwise (every result) the total.
+func c08bucketRole(seen map[string]bool) string {
+	if len(seen) == 1 {
+		for r := range seen {
+			if r != "other" {
+				return r
+			}
+		}
+	}
+	return "total"
 }
